@@ -45,7 +45,7 @@ def scenarios(tier):
                     S.append(dict(inl="paired", outl=False, pf=pf, keys=keys, final=final, sides="both", redirect=bool(keys), demux=demux,
                                   spec=None, pa=False))
     for action in ("trim", "mask", "lowercase", "retain", "crop", "none"):
-        for nad in (1, 2):
+        for nad in (1, 2, 3):
             for final in (None, "discard_untrimmed", "untrimmed_output"):
                 S.append(dict(inl="paired", outl=False, pf=None, keys=["m"], final=final, sides="both", redirect=True, demux=None,
                               spec=None, pa=True, action=action, nad=nad))
@@ -67,6 +67,10 @@ def opts_of(sc):
     if sc["pa"]:
         o["pair_adapters"] = True
         o["action"] = sc["action"]
+        if sc["nad"] == 3:
+            # two ranks share the R1 adapter sequence (dual indexing with a common R1 barcode), with different parameters
+            o["adapters"] = [("-a", f"s1={routing.AD1};e=0"), ("-a", f"s2={routing.AD1}"), ("-a", "s3=TTGCAACT")]
+            o["adapters2"] = [("-A", "t1=GGGGGGGGGG"), ("-A", f"t2={routing.AD2}"), ("-A", f"t3={routing.AD2}")]
         if sc["nad"] == 2:
             # a second adapter pair whose R1 member also occurs in the corpus but whose R2 member does not, and vice versa
             o["adapters"] = [("-a", "p1=TTGCAACT"), ("-a", f"ad={routing.AD1}")]
